@@ -149,6 +149,8 @@ def decide(pid, tier='quick', seed=0, known=None):
             c[k] += c2[k]
         for k in ('trusted_base', 'functions_under_contract', 'copied_types', 'rewrites', 'obligations_table', 'not_verified', 'modelled', 'samples'):
             c[k] = c[k] + [x for x in c2[k] if x not in c[k]]
+        if 'proof_stability_runs' in c2:
+            c.setdefault('proof_stability_runs', []).extend(c2['proof_stability_runs'])
         c['checker_cmd'] += ' ; ' + c2['checker_cmd']
         c['generated_file'] += ' ' + c2['generated_file']
         c['explanation'] = (c['explanation'] + ' ' + c2['explanation']).strip()
@@ -268,4 +270,15 @@ def decide_one(pid, tmpl, tier='quick', seed=0):
         fs = failed_safety[k]
         viol.append(dict(obligation='%s.%s' % (pid, k), kind='unlabelled lemma failure',
                          verifier_output='\n'.join(f['rendered'] for f in fs), text=''))
+    if tier == 'thorough' and not viol:
+        # proof-stability runs (thorough tier): the same file under two other SMT random seeds. Informational: a proof that depends on the
+        # solver's luck is reported in the evidence (and is a candidate for splitting), it is neither an alarm nor a pass of its own.
+        stab = []
+        for k in (1, 2):
+            sd = (seed or 0) * 7 + 11 * k
+            r2 = verus_run(path, threads=threads, extra=('--smt-option', 'smt.random_seed=%d' % sd))
+            c2 = classify(asm, r2)
+            bad = sorted({f['label'] or ('safety.%s' % f.get('owner')) for f in c2['failures'] if not f['twin']}) if not c2['tool_error'] else ['tool: ' + c2['tool_error'][:200]]
+            stab.append(dict(smt_random_seed=sd, agrees=not bad, differing=bad[:10], solver_us=c2.get('smt_us')))
+        evidence['coverage']['proof_stability_runs'] = stab
     return (1 if viol else 0), evidence, viol
